@@ -146,9 +146,8 @@ class C14(Check):
         assert compare(t("a", "\r\n", "b"), t("a", "\n", "b")) == []
 
     def pinned(self, tier):
-        n = 0
-        for cfg_i, rc in enumerate(PINNED_CONFIGS if tier == "thorough" else PINNED_CONFIGS):
-            per = (2 if tier == "quick" else 8)
+        for cfg_i, rc in enumerate(PINNED_CONFIGS):
+            per = 2 if tier == "quick" else 8
             for c in fixlib.pinned_slice(tier, ["layout"], per, per, offset=3 + cfg_i):
                 c["rule_configs"] = rc
                 yield c
@@ -158,7 +157,7 @@ class C14(Check):
         return st.tuples(base, layout_config()).map(lambda t: dict(t[0], rule_configs=t[1]))
 
     def examples(self, tier):
-        return 60 if tier == "quick" else 3000
+        return 65 if tier == "quick" else 1500
 
     def budget_s(self, tier):
         return 400.0 if tier == "quick" else 1700.0
